@@ -100,7 +100,7 @@ func c11Containers(tier string) []c11Container {
 	return out
 }
 
-var c11Forms = []string{"read", "read-group", "read-call", "read-any", "read-sliced", "store", "store-nested", "slice", "slice-copy"}
+var c11Forms = []string{"read", "read-group", "read-call", "read-any", "read-sliced", "store", "store-nested", "slice", "slice-copy", "read-reassigned", "runtime-string"}
 
 func init() {
 	core.Register(&core.Check{
@@ -200,7 +200,53 @@ func c11Run(c *core.Ctx, i int) {
 		c.Violation("wrong-outcome:"+form, fmt.Sprintf("%s: expected an Evy panic of kind %v, got %s %q %s with output %v", what, kinds, o.Class, o.ErrText, o.GoPanic, o.Events), src, nil)
 	}
 	switch form {
-	case "read", "read-group", "read-call", "read-any", "read-sliced":
+	case "read-reassigned", "runtime-string":
+		if ct.kind != "string" {
+			return
+		}
+	}
+	switch form {
+	case "runtime-string":
+		// errmsg is the one string the runtime rewrites in place: every access form must see its current
+		// content, also after earlier accesses to an older content
+		body := `q1 := str2num "Ünïcode-first 🌍 input, longer than the second"
+c0 := errmsg[0] + errmsg[-1] + errmsg[2:5]
+n0 := len errmsg
+for ch := range errmsg
+    c0 = ch
+end
+q2 := str2bool s
+m := errmsg + ""
+ok := (len errmsg) == (len m)
+for i := range (len m)
+    if errmsg[i] != m[i] or errmsg[i - (len m)] != m[i]
+        ok = false
+    end
+    if errmsg[i:] != m[i:] or errmsg[:i] != m[:i]
+        ok = false
+    end
+end
+r := ""
+for ch := range errmsg
+    r = r + ch
+end
+print ok (r == m) (m == errmsg) (q1 == 0) (n0 > 0) (c0 != "") (q2 == false) (m == "str2bool: cannot parse " + (sprintf "%q" s))
+q3 := str2num "1"
+print (len errmsg) q3
+print errmsg[0]
+`
+		c.Distinct(ct.lit + form)
+		o := run(body)
+		want := []string{"print " + strconv.Quote("true true true true true true true true\n"), "print " + strconv.Quote("0 1\n")}
+		if o.Class != "panic:bounds" || len(o.Events) != 2 || o.Events[0] != want[0] || o.Events[1] != want[1] {
+			c.Violation("stale-runtime-string", fmt.Sprintf("errmsg accesses after the runtime rewrote it: expected %v then a bounds panic, got %s %q %v", want, o.Class, o.ErrText, o.Events), c11Prog(ct, body), nil)
+		} else {
+			c.Event("reads_ok", 1)
+		}
+		return
+	}
+	switch form {
+	case "read", "read-group", "read-call", "read-any", "read-sliced", "read-reassigned":
 		for _, ix := range idx {
 			var body string
 			switch form {
@@ -216,6 +262,8 @@ func c11Run(c *core.Ctx, i int) {
 				body = "x:any\nx = s\nprint x.(" + t + ")[" + ix.expr + "]\n"
 			case "read-sliced":
 				body = "print s[:][" + ix.expr + "]\n"
+			case "read-reassigned": // the variable held another, longer string that was already indexed
+				body = "keep := s\ns = \"0123456789 ÄÖ\"\nt := s[0] + s[-1] + s[1:3]\ns = keep\nprint s[" + ix.expr + "]\nt = \"\"\n"
 			}
 			c.Distinct(ct.lit + form + ix.expr)
 			o := run(body)
